@@ -3,6 +3,7 @@ package main
 import (
 	"go/constant"
 	"go/token"
+	"go/types"
 	"os"
 	"regexp"
 	"regexp/syntax"
@@ -633,18 +634,74 @@ func extractFilterRule(r *R, rule string) {
 // hi=i (seen as phi edges at the loop header) and decides whether the hi-arm is
 // taken only under a strict "rangeStart < bound".
 func firstBlockStrict(fn *ssa.Function, rs ssa.Value) (strict bool, found bool) {
-	isVar := func(v ssa.Value, name string) bool {
-		p, ok := Strip(v).(*ssa.Phi)
-		return ok && p.Comment == name
+	// Variables are recognised by their role, not by their name: the probe index is whatever indexes the offsets
+	// parameter; the upper bound is the loop-carried value that starts at len(offsets)-1.
+	var offsets ssa.Value
+	for _, p := range fn.Params {
+		if _, isSlice := p.Type().Underlying().(*types.Slice); isSlice {
+			offsets = p
+		}
+	}
+	probes := map[ssa.Value]bool{}
+	allInstrs(fn, func(in ssa.Instruction) {
+		if ia, ok := in.(*ssa.IndexAddr); ok && Strip(ia.X) == offsets {
+			probes[Strip(ia.Index)] = true
+		}
+	})
+	isProbe := func(v ssa.Value) bool {
+		v = Strip(v)
+		if probes[v] {
+			return true
+		}
+		if p, ok := v.(*ssa.Phi); ok { // the loop-carried probe index: every arriving value indexes offsets
+			for _, e := range p.Edges {
+				if !probes[Strip(e)] {
+					return false
+				}
+			}
+			return len(p.Edges) > 0
+		}
+		return false
+	}
+	isUpperInit := func(v ssa.Value) bool {
+		bo, ok := Strip(v).(*ssa.BinOp)
+		if !ok || bo.Op != token.SUB {
+			return false
+		}
+		c, ok := Strip(bo.X).(*ssa.Call)
+		one, okC := ConstInt(bo.Y)
+		return ok && okC && one == 1 && CalleeName(c.Common()) == "builtin.len" && Strip(c.Call.Args[0]) == offsets
+	}
+	// the upper-bound variable: the phi that starts at len(offsets)-1, and every non-probe phi that flows into it
+	upperSet := map[*ssa.Phi]bool{}
+	allInstrs(fn, func(in ssa.Instruction) {
+		if phi, ok := in.(*ssa.Phi); ok {
+			for _, e := range phi.Edges {
+				if isUpperInit(e) {
+					upperSet[phi] = true
+				}
+			}
+		}
+	})
+	for changed := true; changed; {
+		changed = false
+		for phi := range upperSet {
+			for _, e := range phi.Edges {
+				if p2, ok := Strip(e).(*ssa.Phi); ok && !upperSet[p2] && !isProbe(p2) {
+					upperSet[p2] = true
+					changed = true
+				}
+			}
+		}
 	}
 	for _, b := range fn.Blocks {
 		for _, in := range b.Instrs {
 			phi, ok := in.(*ssa.Phi)
-			if !ok || phi.Comment != "hi" {
+			if !ok || !upperSet[phi] {
 				continue
 			}
 			for ei, e := range phi.Edges {
-				if !isVar(e, "i") {
+				if !isProbe(e) {
 					continue
 				}
 				// the edge on which hi = i: walk up single-predecessor blocks to the deciding If
